@@ -475,8 +475,10 @@ def extract_enum(src, name):
 CONTAINER_FIELD = re.compile(r'^(?:std::(?:vector|priority_queue|deque|unique_ptr)\s*<.*>|\w*List|Path64|PathD|Paths64|PathsD)(?:::\w+)?\s+(\w+)$')
 
 
-def extract_struct(src, name, cppdefs=()):
-    """Field list of struct/class `name`: member functions, constructors, destructors,
+def extract_struct(src, name, cppdefs=(), inits=None):
+    """`inits` (a list) receives (field, initialiser-or-None) for every single-declarator field: the default
+    member initialisers as written (`= {}` recorded as '{}'), for the value-initialisation function of //@structinit.
+    Field list of struct/class `name`: member functions, constructors, destructors,
     access specifiers and default member initialisers are dropped; field declarations are
     carried verbatim.  Returns (C text, field names, line)."""
     masked = strip_comments_keep_layout(src)
@@ -492,7 +494,7 @@ def extract_struct(src, name, cppdefs=()):
     body, _ = run_cpp(body, list(cppdefs))
     body = re.sub(r'^[ \t]*#.*$', '', body, flags=re.M)
     # remove nested brace blocks together with their heads (methods); `= {}` initialisers first
-    body = re.sub(r'=\s*\{\s*\}', '', body)
+    body = re.sub(r'=\s*\{\s*\}', '= VF_EMPTY_INIT', body) if inits is not None else re.sub(r'=\s*\{\s*\}', '', body)
     body = re.sub(r'\{\s*\}', ' ', body)
     while True:
         k = body.find('{')
@@ -517,6 +519,11 @@ def extract_struct(src, name, cppdefs=()):
         st = re.sub(r'\b(public|private|protected)\s*:', '', st).strip()
         if not st or '(' in st or st.startswith('friend') or st.startswith('using') or st.startswith('typedef'):
             continue
+        if inits is not None:
+            mi = re.match(r'^[^=,]*?(\w+)\s*(?:=\s*([^,]+))?$', st)
+            if not mi:
+                raise ExtractError('struct %s: cannot read the initialiser of `%s`' % (name, st))
+            inits.append((mi.group(1), mi.group(2).strip().replace('nullptr', 'NULL') if mi.group(2) else None))
         st = re.sub(r'\s*=\s*[^,]+', '', st)          # default member initialisers
         st = re.sub(r'\b(const|mutable|static|inline)\b\s*', '', st) if st.startswith('const uint64_t') else st
         st = st.replace('nullptr', 'NULL')
